@@ -160,6 +160,7 @@ func (idx *index) get(hash uint32, matchKey matchKeyFunc) error {
 
 func (idx *index) findInsertionBucket(newSlot slot, matchKey matchKeyFunc) (*slotWriter, bool, error) {
 	sw := &slotWriter{}
+	var free *slotWriter // First empty slot in the chain.
 	it := idx.newBucketIterator(idx.bucketIndex(newSlot.hash))
 	for {
 		b, err := it.next()
@@ -175,8 +176,12 @@ func (idx *index) findInsertionBucket(newSlot slot, matchKey matchKeyFunc) (*slo
 			sl := b.slots[i]
 			if sl.offset == 0 {
 				// Found an empty slot.
-				sw.slotIdx = i
-				return sw, false, nil
+				// The key may still be stored further down the chain: deleting a slot leaves
+				// an empty slot in the middle of the chain.
+				if free == nil {
+					free = &slotWriter{bucket: &b, slotIdx: i}
+				}
+				break
 			}
 			if newSlot.hash != sl.hash {
 				continue
@@ -194,6 +199,9 @@ func (idx *index) findInsertionBucket(newSlot slot, matchKey matchKeyFunc) (*slo
 		}
 		if b.next == 0 {
 			// No more buckets in the chain.
+			if free != nil {
+				return free, false, nil
+			}
 			sw.slotIdx = i
 			return sw, false, nil
 		}
